@@ -20,13 +20,18 @@ Theorem C36_pace : forall S (P : spawner S) fuel t0 s evs tc ties pre t1 f1 i1 m
   f1 + W <= t2 /\ t1 + W <= t2.
 Proof. exact task_pace. Qed.
 
-(* while incomplete, keeps attempting at that pace.  For a spawner that never becomes complete,
-   whatever the events: the first attempt is made at the start, every further one exactly W after
-   the previous one returned; everything else the loop does in between (handling events, noticing
-   the closed channel) happens no later than that deadline, a timeout is followed at once by the
-   attempt, and the log ends only with the channel closed, try_spawn failing, or the cut-off of
-   the model ([periodic], Model/Spawner.v). *)
-Theorem C36_keeps_trying : forall S (P : spawner S) fuel t0 s evs tc ties,
+(* while incomplete, keeps attempting at that pace.  PARTIAL as a statement about whole runs: it is
+   proved for spawners that stay incomplete for the whole run (is_complete false in every state).
+   For those, whatever the events: the first attempt is made at the start, every further one
+   exactly W after the previous one returned; everything else the loop does in between (handling
+   events, noticing the closed channel) happens no later than that deadline, a timeout is followed
+   at once by the attempt, and the log ends only with the channel closed, try_spawn failing, or
+   the cut-off of the model ([periodic], Model/Spawner.v).
+   Missing: the same run-level statement for a spawner that alternates between complete and
+   incomplete (next attempt at max(instant it is seen incomplete, previous return + W)); for such
+   spawners only the three per-iteration theorems below are proved (they are what the run-level
+   proof is made of), and the correspondence exercises alternating spawners on every run. *)
+Theorem C36_keeps_trying_partial : forall S (P : spawner S) fuel t0 s evs tc ties,
   (forall x, sp_complete P x = false) -> periodic t0 None (task P fuel t0 s evs tc ties).
 Proof. exact task_periodic. Qed.
 
@@ -102,7 +107,7 @@ Example C36_nonvacuous_tie :
 Proof. vm_compute. split; reflexivity. Qed.
 
 Print Assumptions C36_pace.
-Print Assumptions C36_keeps_trying.
+Print Assumptions C36_keeps_trying_partial.
 Print Assumptions C36_attempt_when_due.
 Print Assumptions C36_no_attempt_otherwise.
 Print Assumptions C36_wait_bounded.
